@@ -169,6 +169,13 @@ void h_deq(void) {
     XV_OBL("scq.inv.preserved", rep);
     XV_OBL("scq.dequeue.empty_iff", H >= in_H && H <= in_H + in_gap + 1 && (in_th < 0 ? H == in_H : H > in_H));
     XV_OBL("scq.dequeue.empty_iff", gap == 0 || (in_fin && q._threshold == -1));
+    /* every ticket drawn by the failed dequeue costs one unit of threshold ... */
+    XV_OBL("scq.dequeue.empty_iff", q._threshold == in_th - (int64_t)(H - in_H));
+    /* ... and its slot is closed for an enqueuer that still holds the same tail ticket: the entry is no longer (older, safe, bottom) */
+    for (unsigned k = 0; k <= G; k++) if (in_H + k < H) {
+      index_t pos2 = (in_H + k) << 1; uint64_t e = q._data[scq_remap_index(pos2, RS(), N)];
+      XV_OBL("scq.dequeue.blocks_ticket", !((int64_t)((e | MASK) - (pos2 | MASK)) < 0 && (e & N) != 0));
+    }
     if (in_th < 0) XV_CANARY("deq.empty_threshold"); else XV_CANARY("deq.empty_catchup");
 #if Finalizable
     if (in_gap > 0 && in_th >= 0) XV_CANARY("deq.empty_gap");
@@ -201,4 +208,47 @@ void h_catchup(void) {
   if (fin) XV_CANARY("catchup.finalized");
 #endif
   if (!fin) XV_CANARY("catchup.plain");
+}
+
+/* ------------------------------------------------------------------ enqueue when a dequeuer has overtaken the tail.
+ * Mid-operation state of an EMPTY ring: a concurrent dequeue has taken head ticket T (= tail position) and has already passed
+ * slot(T) - it either lifted the bottom entry to cycle(T), or (the slot still held a value of an older cycle at that moment, consumed
+ * since) could only mark it unsafe - but has not run catchup yet: head = T+1, tail = T.  The enqueuer that now draws ticket T must
+ * NOT publish in slot(T) (nobody will ever look there again); it has to move on to ticket T+1.
+ * This is what the strict cycle comparison and the `unsafe => head <= tail` test of enqueue are for. */
+_Bool in_lifted;
+void h_enq_overtaken(void) {
+  struct scq q; struct ring_abs b; havoc_ring(&q); havoc_inputs(); in_op = 0;
+  XV_ASSUME(in_cnt == 0 && !in_fin && in_gap == 0);
+  build(&q);
+  in_lifted = nondet_bool();
+  { unsigned s = (unsigned)scq_remap_index(in_H << 1, RS(), N); uint64_t cycT = (in_H << 1) | MASK;
+    if (in_lifted) q._data[s] = in_safe[s] ? cycT : (cycT ^ N);          /* (cycle(T), any safe bit, bottom) */
+    else q._data[s] = q._data[s] & ~(uint64_t)N; }                       /* (older cycle, unsafe, bottom) */
+  q._head = (in_H + 1) << 1;                                             /* the dequeuer's fetch_add */
+  in_v = nondet_u64(); XV_ASSUME(in_v < CAP);
+  _Bool r = scq_enqueue(&q, in_v, CAP, RS());
+  b.cnt = 1; b.fin = 0; b.vals[0] = (unsigned char)in_v; for (unsigned i = 1; i < CAP; i++) b.vals[i] = 0;
+  uint64_t H, gap;
+  XV_OBL("scq.enqueue.skips_overtaken", r);
+  XV_OBL("scq.enqueue.skips_overtaken", represents(&q, &b, &H, &gap) && H == in_H + 1 && gap == 0);   /* the value sits at position T+1 = head */
+  if (in_lifted) XV_CANARY("enq_overtaken.lifted"); else XV_CANARY("enq_overtaken.unsafe");
+}
+
+/* ------------------------------------------------------------------ dequeue that overtakes an entry of the previous cycle.
+ * Mid-operation state: abstractly empty at head = tail = H, but slot(H) still holds (cycle(H-N), v0): the dequeuer that owns head ticket
+ * H-N has not consumed it yet.  The dequeue with ticket H must leave the value alone, clear its safe bit (so that, once v0 is consumed,
+ * an enqueuer holding tail ticket H cannot publish behind the head) and report empty. */
+void h_deq_stale(void) {
+  struct scq q; havoc_ring(&q); havoc_inputs(); in_op = 1;
+  XV_ASSUME(in_cnt == 0 && !in_fin && in_gap == 0 && in_th >= 0 && in_H >= N);
+  build(&q);
+  unsigned s = (unsigned)scq_remap_index(in_H << 1, RS(), N); uint64_t v0 = nondet_u64(); XV_ASSUME(v0 < CAP);
+  uint64_t old = ((((in_H - N) << 1) | MASK) & ~MASK) | (in_safe[s] ? N : 0) | v0;
+  q._data[s] = old;
+  uint64_t out0 = nondet_u64(), out = out0;
+  _Bool r = scq_dequeue(&q, &out, CAP, RS());
+  XV_OBL("scq.dequeue.empty_iff", !r && out == out0 && q._head == (in_H + 1) << 1 && q._tail == (in_H + 1) << 1);
+  XV_OBL("scq.dequeue.blocks_ticket", q._data[s] == (old & ~(uint64_t)N));
+  XV_CANARY("deq_stale.reached"); if (in_safe[s]) XV_CANARY("deq_stale.was_safe");
 }
